@@ -58,7 +58,7 @@ impl<'a> EFIMemoryAreaIter<'a> {
 // `impl Iterator for EFIMemoryAreaIter` (R4)
 //@extract multiboot2/src/memory_map.rs :: impl<'a> Iterator for EFIMemoryAreaIter<'a> :: fn next
 //@  ret r
-//@  rewrite /unsafe \{\s*(self\.mmap_tag[\s\S]*?\.cast::<EFIMemoryDesc>\(\))\s*\.as_ref\(\)\s*\.unwrap\(\)\s*\}/ => /unsafe { ptr_as_ref_unwrap(\1) }/
+//@  rules R8
 //@  prologue proof { assert(size_of::<EFIMemoryDesc>() == 40 && align_of::<EFIMemoryDesc>() == 8); lemma_efi_index(old(self).i as int, old(self).entries as int, old(self).mmap_tag.desc_size as int); }
 //@  spec:
 //@    requires old(self).wf(),
